@@ -39,6 +39,9 @@ THEOREMS = [
     "C12_cfg_geometry",
     "C12_required_productions",
     "C12_cfg_montepy",
+    "C12_cfg_extended",
+    "C12_required_productions_extended",
+    "C12_cfg_extended_montepy",
     "prefixes_nodup",
     "C12_dispatch_cell_exact",
     "C12_dispatch_data_exact",
@@ -49,6 +52,11 @@ THEOREMS = [
     "C12_lexclass_particles",
     "C12_expects_particle",
     "C12_lexclass_particles_elsewhere",
+    "C12_lexnum_patterns",
+    "C12_lexnum_real",
+    "C12_lexnum_counted",
+    "C12_lexnum_multiply",
+    "C12_lexnum_countless",
 ]
 
 MODES = ["single", "wrapped", "mixed"]
@@ -734,6 +742,61 @@ def run_word(item):
     return last.type if last.value == item["word"] else "multi:" + ",".join(t.type for t in toks)
 
 
+LEXNUM_PREFIX = {"data": "sd4 ", "nuclides": "m1 ", "surface": "1 px ", "cell": "1 0 -1 vol="}
+LEXNUM_OUTSIDE = {"TEXT", "KEYWORD", "PARTICLE", "SURFACE_TYPE", "REPEAT", "MULTIPLY", "JUMP", "INTERPOLATE", "LOG_INTERPOLATE", "+", "-", "PARTICLE_SPECIAL", "FILE_PATH"}
+
+
+def run_lexnum(item):
+    """[token type, token length] the real lexer produces AT the numeric word (a blank follows it), or
+    ["ValueError", None] when the NUMBER function cannot read it"""
+    _mp()
+    from montepy.input_parser import tokens as T
+
+    ctx = item["ctx"]
+    lexer = {"data": T.DataLexer, "nuclides": T.DataLexer, "surface": T.SurfaceLexer, "cell": T.CellLexer}[ctx]
+    pre = LEXNUM_PREFIX[ctx]
+    try:
+        for t in lexer().tokenize(pre + item["word"] + " "):
+            if t.index == len(pre):
+                return [t.type, len(t.value)]
+            if t.index > len(pre):
+                return ["straddle", 0]
+    except ValueError:
+        return ["ValueError", None]
+    except Exception as e:  # noqa: BLE001
+        return ["lex:" + type(e).__name__, None]
+    return None
+
+
+def lexnum_words(chk, rng):
+    """numeric words for U-lexnum: every word over a small alphabet up to a length (enumerated), every ZAID-shaped
+    word of a suffix table (enumerated), and generated spellings of G's Real and shortcut rules"""
+    import itertools
+
+    words = set()
+    for n in range(1, chk.pick(4, 5) + 1):
+        for tup in itertools.product("10.-eEmr", repeat=n):
+            if tup[0] in "10.-":
+                words.add("".join(tup))
+    for dn in range(3, 8):
+        for fn in range(0, 5):
+            for suf in ["", "m", "c", "e1", "e", "em", "nc", "mm", "e+1", "-1", "m1", "E-3", "M", "e-", "70c", "r"]:
+                words.add("1" * dn + "." + "2" * fn + suf)
+                words.add("+" + "1" * dn + "." + "2" * fn + suf)
+    nenum = len(words)
+    for _ in range(chk.pick(600, 20000)):
+        x = g12.gen_real(rng)
+        words.add(x)
+        r = rng.random()
+        if r < 0.3:
+            words.add(x + rng.choice("mM"))
+        elif r < 0.5:
+            words.add(str(rng.randint(1, 999)) + rng.choice(["r", "R", "i", "I", "j", "J", "ilog", "ILOG", "iLog"]))
+        elif r < 0.6:
+            words.add(f"{rng.randint(1000, 999999)}.{rng.randint(0, 999):0{rng.choice([2, 3])}d}" + rng.choice(["", "m", "c", "e0", "E-3", "nc", "e"]))
+    return sorted(words), nenum
+
+
 def run_probe(item):
     """surface with an arbitrary constant count (not necessarily in G): class or exception of surface_builder"""
     mp = _mp()
@@ -828,8 +891,9 @@ def run(chk):
         "context-free derivability (C12_cfg) is not LALR acceptance: SLY resolves shift/reduce and reduce/reduce conflicts "
         "silently; the regular-expression lexer is not modelled; both are validated on the real parser by this run's oracle "
         "and by the U-lexclass comparison, not proved",
-        "C12_cfg covers cell cards, surface cards, number-list / MODE / material / thermal data cards; tally, FS, SDEF, "
-        "SI/SP/SB/DS with an option letter and FC/SC cards are validated on the real parser only",
+        "C12_cfg / C12_cfg_extended cover cell cards, surface cards, number-list / MODE / material (library-qualified "
+        "ZAIDs) / thermal / tally / FS / SDEF / lettered SI-SP-SB-DS data cards; FC/SC cards and materials that mix "
+        "ZAID forms are validated on the real parser only",
         "G restrictions applied by the generator: nothing between # and its operand; no line that BEGINS with # "
         "(vertical format); tabs are not generated; physical lines <= 80 columns",
     ]
@@ -1011,6 +1075,29 @@ def run(chk):
         if o != m:
             chk.disagreements_checked += 1
             chk.broken_obligation("correspondence", "U-lexword (Model *.TEXT / _expects_particle vs tokens.py)", {"impl": o, "model": m}, w)
+    # U-lexnum: Model/LexNum.lean vs the real lexers on numeric words, in four contexts
+    lwords, nenum = lexnum_words(chk, chk.rng("lexnum"))
+    litems = [{"word": w, "ctx": c} for w in lwords for c in ("data", "nuclides")]
+    litems += [{"word": w, "ctx": c} for w in lwords[:: chk.pick(7, 3)] for c in ("surface", "cell")]
+    obs_l = pmap(run_lexnum, litems, chunksize=64)
+    mod_l = drv.batch([{"op": "lexnum", "word": it["word"], "nuclides": it["ctx"] == "nuclides"} for it in litems])
+    for it, o, m in zip(litems, obs_l, mod_l):
+        chk.traces_validated += 1
+        chk.count("unit:lexnum")
+        if m is None:
+            ok = o is None or o[0] in LEXNUM_OUTSIDE or o[0].startswith("lex:")
+        elif o and o[0] == "ValueError":
+            ok = m[0] == "ValueError"
+        else:
+            ok = o == m
+        if not ok:
+            chk.disagreements_checked += 1
+            if run_lexnum(it) == o:
+                chk.broken_obligation("correspondence", "U-lexnum (Model/LexNum.lean vs the numeric rules of tokens.py)", {"impl": o, "model": m}, it)
+            else:
+                chk.count("flaky:disagreement-not-reproduced")
+    chk.units["U-lexnum"] = {"enumerated_words": nenum, "generated_words": len(lwords) - nenum, "probes": len(litems)}
+
     probes = [{"mnemonic": mn, "n": n} for mn, _ in TABLES["surfaceArities"] for n in range(1, 8)] + [{"mnemonic": mn.upper(), "n": n} for mn in ("p", "px", "c/z", "cz") for n in (1, 3, 4, 9, 10)]
     obs_p = pmap(run_probe, probes)
     mod_p = drv.batch([dict(p, op="surface_class") for p in probes])
